@@ -166,7 +166,7 @@ def build_hx(variant="", extra_flags=()):
         cmd = ["go", "build", "-tags", "verif", "-overlay", os.path.join(HARNESS, "overlay.json"),
                "-gcflags=all=-l", "-o", target] + list(extra_flags) + ["./cmd/hx"]
         env = go_env()
-        if "-race" in extra_flags:
+        if "-race" in extra_flags or any("linkmode=external" in f for f in extra_flags):
             env["CGO_ENABLED"] = "1"
         rc, out = sh(cmd, cwd=HARNESS, env=env, timeout=900)
         if rc != 0:
